@@ -165,6 +165,13 @@ impl<'a> SourceParser<'a> {
     }
   }
 
+  /// Hand comments that were taken with a consumed token (e.g. a trailing comma) over to the
+  /// next token, so that they are attached wherever the comments of that token are.
+  fn prepend_to_pending_comments(&mut self, mut comments: Vec<Comment>) {
+    comments.append(&mut self.pending_comments);
+    self.pending_comments = comments;
+  }
+
   fn report(&mut self, loc: Location, reason: String) {
     self.error_set.report_invalid_syntax_error(loc, reason)
   }
@@ -191,6 +198,7 @@ impl<'a> SourceParser<'a> {
       }
       let additional_comments = self.consume();
       if self.peek().1 == TokenContent::Operator(end_token) {
+        self.prepend_to_pending_comments(additional_comments);
         return collector;
       }
       collector.push(parser(self, additional_comments));
@@ -1301,6 +1309,7 @@ mod expression_parser {
                   parser.peek(),
                   Token(_, TokenContent::Operator(TokenOp::RightParenthesis))
                 ) {
+                  parser.prepend_to_pending_comments(id_comments);
                   break;
                 }
                 // Non-id expression in tuple: (a, b, 42, ...)
@@ -1372,7 +1381,12 @@ mod expression_parser {
                 .collect_vec();
               if tuple_elements.len() == 1 {
                 // `(a,)` is a parenthesized expression like `(1,)`, not a tuple of one element.
-                return tuple_elements.pop().unwrap();
+                // Its parentheses are not kept, their comments are.
+                let mut e = tuple_elements.pop().unwrap();
+                let mut all_comments = associated_comments;
+                all_comments.append(&mut comments_before_rparen);
+                add_preceding_comments(parser, &mut e, all_comments);
+                return e;
               }
               let loc = peeked_loc.union(&right_parenthesis_loc);
               return expr::E::Tuple(
@@ -1670,6 +1684,7 @@ mod expression_parser {
     while let Token(_, TokenContent::Operator(TokenOp::Comma)) = parser.peek() {
       let comments = parser.consume();
       if matches!(parser.peek(), Token(_, TokenContent::Operator(TokenOp::RightParenthesis))) {
+        parser.prepend_to_pending_comments(comments);
         break;
       }
       expressions.push(parse_expression_with_additional_preceding_comments(parser, comments));
@@ -1681,11 +1696,16 @@ mod expression_parser {
       );
     }
     expressions.truncate(MAX_STRUCT_SIZE);
-    let (end_loc, end_comments) = parser.assert_and_consume_operator(TokenOp::RightParenthesis);
+    let (end_loc, mut end_comments) = parser.assert_and_consume_operator(TokenOp::RightParenthesis);
     let loc = start_loc.union(&end_loc);
     if expressions.len() == 1 {
       // `(a,)` is a parenthesized expression like `(1,)`, not a tuple of one element.
-      return expressions.pop().unwrap();
+      // Its parentheses are not kept, their comments are.
+      let mut e = expressions.pop().unwrap();
+      let mut all_comments = start_comments;
+      all_comments.append(&mut end_comments);
+      add_preceding_comments(parser, &mut e, all_comments);
+      return e;
     }
     expr::E::Tuple(
       expr::ExpressionCommon { loc, associated_comments: NO_COMMENT_REFERENCE, type_: () },
